@@ -22,7 +22,7 @@ from qiskit_addon_cutting.utils.transpiler_passes import RemoveFinalReset, Conso
 
 import qiskit_addon_cutting.cutting_experiments as _ce
 from qiskit_addon_cutting import cut_wires, expand_observables, partition_problem, generate_cutting_experiments
-from qiskit_addon_cutting.instructions import CutWire
+from qiskit_addon_cutting.instructions import CutWire, Move
 from qiskit_addon_cutting.utils.observable_grouping import ObservableCollection
 from qiskit.circuit import Instruction, Reset
 from qiskit.quantum_info import PauliList
@@ -414,6 +414,19 @@ def e2e_problem(rng, it):
         qc = QuantumCircuit(2)
         qc.h(0); qc.cx(0, 1); qc.append(CutWire(), [0]); qc.rx(0.5, 0); qc.ry(0.25, 1)
         return qc, PauliList(["IZ"]), "probe"
+    if it % 4 == 1:
+        # explicit Move between two partitions, observable NOT identity on the Move source: the source's
+        # reset is followed by a real measurement, so it is not final
+        qc = QuantumCircuit(3)
+        qc.h(0); qc.cx(0, 1)
+        if rng.integers(0, 2):
+            qc.ry(float(rng.choice([0.25, 0.5])), 1)
+        qc.append(Move(), [1, 2])
+        qc.ry(0.5, 2)
+        if rng.integers(0, 2):
+            qc.h(2)
+        obs = [["IZI", "ZZZ", "IXI"][int(rng.integers(0, 3))], ["ZII", "IZZ", "ZYI"][int(rng.integers(0, 3))]]
+        return qc, PauliList(sorted(set(obs))), "move"
     n = int(rng.integers(2, 4))
     qc = QuantumCircuit(n)
     ncuts = 1 if rng.integers(0, 4) else 2
@@ -471,12 +484,15 @@ def e2e_generate(subcircuits, subobservables, record=None, disable=False):
 def e2e_stream(w, rng, n_problems, max_sub):
     for it in range(n_problems):
         qc, obs, tag = e2e_problem(rng, it)
-        r = call_canon(cut_wires, qc)
-        if r[0] != "ok":
-            w.count("e2e.problem", "cut_wires-" + r[0])
-            continue
-        qc1 = r[1]
-        r = call_canon(lambda: partition_problem(qc1, observables=expand_observables(obs, qc, qc1)))
+        if tag == "move":
+            r = call_canon(lambda: partition_problem(qc, partition_labels="AAB", observables=obs))
+        else:
+            r = call_canon(cut_wires, qc)
+            if r[0] != "ok":
+                w.count("e2e.problem", "cut_wires-" + r[0])
+                continue
+            qc1 = r[1]
+            r = call_canon(lambda: partition_problem(qc1, observables=expand_observables(obs, qc, qc1)))
         if r[0] != "ok":
             w.count("e2e.problem", "setup-" + r[0])
             continue
@@ -574,7 +590,7 @@ def generate(rng, tier, outdir):
     quick = tier == "quick"
     maxlen = 4 if quick else 5
     maxlen13 = 3 if quick else 4
-    n_random = 250 if quick else 4000
+    n_random = 250 if quick else 2500
     n_exotic = 40 if quick else 600
     n_e2e = 8 if quick else 60
 
